@@ -287,6 +287,11 @@ def findReaders (K : KeySetOps B) (fs : Nat → Option Bytes) (levels : List (Li
     | none => none
     | some bytes => (Reader.open K bytes).map (fun _ => f.fileNumber))
 
+/-- the file system / reader cache with some tables unopenable (`cache.GetReader` returns an
+error for them: file gone, EMFILE, mmap failure …) -/
+def failing (fs : Nat → Option Bytes) (openFails : Nat → Bool) : Nat → Option Bytes :=
+  fun f => if openFails f then none else fs f
+
 /-! ## executable stand-in for the bitmap: keys kept in descending order -/
 
 def insertDesc (k : Nat) : List Nat → List Nat
